@@ -780,3 +780,130 @@ Example C09_total_hypotheses_satisfiable :
        ["// top"; "// lead"; "// eol"; "// e2"; "// stmt"; "// ra"; "// dc"; "// ds"]%string
     /\ program_comments p = forest_comments view_witness forest.
 Proof. exact total_hypotheses_satisfiable. Qed.
+
+(* ======================================================================================================
+   ROUND ATOMS: the formatter-half hypothesis stmt_ok_parsed of the _total theorems, discharged as far as the parser
+   model allows (proofs/PegAtomsC09Scan.v, proofs/PegAtomsC09.v; notes/ext-atoms.md).
+   comment_ok_cr = what the formatter-half proofs really need of a comment text: "//" + text without line feed that
+   does not END in a carriage return (a bare CR inside is fine; ScanFmt.comment_ok forbade every CR). *)
+Require Import Blots.proofs.PegAtomsC09Scan Blots.proofs.PegAtomsC09.
+
+Theorem C09_comment_ok_cr_is_comment_text : forall c, comment_ok_cr c = true -> is_comment_text c.
+Proof. exact comment_ok_cr_text. Qed.
+Check C09_comment_ok_cr_is_comment_text : forall c, comment_ok_cr c = true -> is_comment_text c.
+Print Assumptions C09_comment_ok_cr_is_comment_text.
+
+Theorem C09_comment_ok_cr_weaker : forall c, comment_ok c = true -> comment_ok_cr c = true.
+Proof. exact comment_ok_weaker. Qed.
+Check C09_comment_ok_cr_weaker : forall c, comment_ok c = true -> comment_ok_cr c = true.
+Print Assumptions C09_comment_ok_cr_weaker.
+
+(* the formatter half and both drivers for the weaker predicate (CR.atoms_ok / CR.stmt_ok = atoms_ok / stmt_ok with
+   comment_ok_cr in place of comment_ok) *)
+Theorem C09_fmtd_wf_doc_cr :
+  forall O key_ok, (forall k, key_ok k = true -> neutral (o_record_key O k)) ->
+  forall w e i, CR.atoms_ok key_ok e = true ->
+  opaque_texts_neutral (fmtd O w e i) -> wf_doc (fmtd O w e i).
+Proof. exact CR.fmtd_wf_doc. Qed.
+Check C09_fmtd_wf_doc_cr :
+  forall O key_ok, (forall k, key_ok k = true -> neutral (o_record_key O k)) ->
+  forall w e i, CR.atoms_ok key_ok e = true ->
+  opaque_texts_neutral (fmtd O w e i) -> wf_doc (fmtd O w e i).
+Print Assumptions C09_fmtd_wf_doc_cr.
+
+Theorem C09_lib_driver_text_comments_cr :
+  forall O key_ok, (forall k, key_ok k = true -> neutral (o_record_key O k)) ->
+  forall mw p d, Forall (CR.stmt_ok O key_ok mw) p -> format_lib O mw p = Some d ->
+  scan_comments (render d) = program_comments p.
+Proof. exact CR.lib_driver_text_comments. Qed.
+Check C09_lib_driver_text_comments_cr :
+  forall O key_ok, (forall k, key_ok k = true -> neutral (o_record_key O k)) ->
+  forall mw p d, Forall (CR.stmt_ok O key_ok mw) p -> format_lib O mw p = Some d ->
+  scan_comments (render d) = program_comments p.
+Print Assumptions C09_lib_driver_text_comments_cr.
+
+Theorem C09_cli_driver_text_comments_cr :
+  forall O key_ok, (forall k, key_ok k = true -> neutral (o_record_key O k)) ->
+  forall p, Forall (CR.stmt_ok O key_ok None) p ->
+  scan_comments (render (format_cli O p)) = program_comments p.
+Proof. exact CR.cli_driver_text_comments. Qed.
+Check C09_cli_driver_text_comments_cr :
+  forall O key_ok, (forall k, key_ok k = true -> neutral (o_record_key O k)) ->
+  forall p, Forall (CR.stmt_ok O key_ok None) p ->
+  scan_comments (render (format_cli O p)) = program_comments p.
+Print Assumptions C09_cli_driver_text_comments_cr.
+
+(* atoms_ok = names part + comment part *)
+Theorem C09_atoms_ok_split : forall key_ok e,
+  names_ok key_ok e = true -> forallb comment_ok_cr (expr_comments e) = true -> CR.atoms_ok key_ok e = true.
+Proof. exact atoms_ok_split. Qed.
+Check C09_atoms_ok_split : forall key_ok e,
+  names_ok key_ok e = true -> forallb comment_ok_cr (expr_comments e) = true -> CR.atoms_ok key_ok e = true.
+Print Assumptions C09_atoms_ok_split.
+
+(* every comment of every parsed program satisfies comment_ok_cr, outside the two exclusions (empty container;
+   a comment pair that ends in a carriage return = finding C09-comment-trailing-cr) *)
+Theorem C09_parsed_program_comments_ok_cr : forall text forest p,
+  parse_program_c text = PCOk forest p ->
+  forest_no_empty_container text forest = true ->
+  forallb no_trailing_cr (forest_comments text forest) = true ->
+  forallb comment_ok_cr (program_comments p) = true.
+Proof. exact parsed_program_comments_ok_cr. Qed.
+Check C09_parsed_program_comments_ok_cr : forall text forest p,
+  parse_program_c text = PCOk forest p ->
+  forest_no_empty_container text forest = true ->
+  forallb no_trailing_cr (forest_comments text forest) = true ->
+  forallb comment_ok_cr (program_comments p) = true.
+Print Assumptions C09_parsed_program_comments_ok_cr.
+
+(* text -> emitted text with the COMMENT part of the formatter-half hypothesis discharged.  Remaining hypotheses:
+   the two exclusions and stmt_rest_ok = names / keys (names_ok: NOT yet derived from the `identifier` rule), the
+   expr_to_source texts (cfree / opaque_texts_neutral), and "a comment statement has no second comment". *)
+Theorem C09_text_to_text_lib_closed :
+  forall O key_ok, (forall k, key_ok k = true -> neutral (o_record_key O k)) ->
+  forall text forest p mw d,
+  parse_program_c text = PCOk forest p ->
+  forest_no_empty_container text forest = true ->
+  forallb no_trailing_cr (forest_comments text forest) = true ->
+  Forall (stmt_rest_ok O key_ok mw) p -> format_lib O mw p = Some d ->
+  scan_comments (render d) = forest_comments text forest.
+Proof. exact text_to_text_lib_closed. Qed.
+Check C09_text_to_text_lib_closed :
+  forall O key_ok, (forall k, key_ok k = true -> neutral (o_record_key O k)) ->
+  forall text forest p mw d,
+  parse_program_c text = PCOk forest p ->
+  forest_no_empty_container text forest = true ->
+  forallb no_trailing_cr (forest_comments text forest) = true ->
+  Forall (stmt_rest_ok O key_ok mw) p -> format_lib O mw p = Some d ->
+  scan_comments (render d) = forest_comments text forest.
+Print Assumptions C09_text_to_text_lib_closed.
+Theorem C09_text_to_text_cli_closed :
+  forall O key_ok, (forall k, key_ok k = true -> neutral (o_record_key O k)) ->
+  forall text forest p,
+  parse_program_c text = PCOk forest p ->
+  forest_no_empty_container text forest = true ->
+  forallb no_trailing_cr (forest_comments text forest) = true ->
+  Forall (stmt_rest_ok O key_ok None) p ->
+  scan_comments (render (format_cli O p)) = forest_comments text forest.
+Proof. exact text_to_text_cli_closed. Qed.
+Check C09_text_to_text_cli_closed :
+  forall O key_ok, (forall k, key_ok k = true -> neutral (o_record_key O k)) ->
+  forall text forest p,
+  parse_program_c text = PCOk forest p ->
+  forest_no_empty_container text forest = true ->
+  forallb no_trailing_cr (forest_comments text forest) = true ->
+  Forall (stmt_rest_ok O key_ok None) p ->
+  scan_comments (render (format_cli O p)) = forest_comments text forest.
+Print Assumptions C09_text_to_text_cli_closed.
+
+(* the exclusion is necessary at the scanner level (finding C09-comment-trailing-cr): a comment that ends in CR,
+   followed by the line break every layout emits after a comment, is re-read WITHOUT its CR *)
+Lemma C09_comment_trailing_cr_refuted :
+  comment_ok_cr trailing_cr_comment = false /\
+  scan_comments (trailing_cr_comment +++ nl) <> [trailing_cr_comment].
+Proof. split; [exact (proj1 comment_trailing_cr_refuted)|exact (proj2 (proj2 comment_trailing_cr_refuted))]. Qed.
+(* the weaker predicate admits a bare CR inside a comment (`// a<CR>b`), which ScanFmt.comment_ok refused *)
+Example C09_comment_ok_cr_bare_cr :
+  comment_ok_cr bare_cr_comment = true /\ comment_ok bare_cr_comment = false /\
+  scan_comments (bare_cr_comment +++ nl) = [bare_cr_comment].
+Proof. exact comment_bare_cr_ok. Qed.
